@@ -1,7 +1,7 @@
 (* Props/C14_concat.v — C14 for `pna concat` and `pna split` + `pna concat` (Model/Concat.v, tied to the real binary
    by props/_concat.py): concatenating archives the strict recogniser accepts — single files or part chains —
    gives an archive it accepts, whose strictly decoded entries are the concatenation of the inputs'; splitting an
-   accepted archive and concatenating the parts gives accepted parts and an accepted archive with the same entries
+   accepted archive (a single file or, since f4d9f833, a part chain entered at its first part) and concatenating the parts gives accepted parts and an accepted archive with the same entries
    up to where data streams are cut; the file a failed concat leaves behind is rejected. *)
 From PNA Require Import Base Crc32 Name Codec Chunk Archive Entry Wf Concat.
 From PNA Require Import BaseFacts ChunkFacts ArchiveFacts EntryFacts WfFacts WfWriterFacts WfAgreeFacts WfSplitFacts
@@ -32,16 +32,30 @@ Print Assumptions C14_concat_wf_verdict.
 
 Theorem C14_split_then_concat_wf :
   forall (a : bytes) (max : N) (parts : list bytes) (b : bytes),
-  wf_archive a = true -> splitcat max a = Ok (parts, b) ->
+  wf_archive a = true -> splitcat max [a] = Ok (parts, b) ->
   wf_parts parts = true /\ wf_archive b = true /\
   exists xs xs' : list read_entry, strict_decode a = Ok xs /\ strict_decode b = Ok xs' /\ Forall2 entry_same xs xs'.
 Proof. exact splitcat_wf. Qed.
 Check C14_split_then_concat_wf :
   forall (a : bytes) (max : N) (parts : list bytes) (b : bytes),
-  wf_archive a = true -> splitcat max a = Ok (parts, b) ->
+  wf_archive a = true -> splitcat max [a] = Ok (parts, b) ->
   wf_parts parts = true /\ wf_archive b = true /\
   exists xs xs' : list read_entry, strict_decode a = Ok xs /\ strict_decode b = Ok xs' /\ Forall2 entry_same xs xs'.
 Print Assumptions C14_split_then_concat_wf.
+
+(* the same for every accepted part chain: `pna split` of a multipart archive writes accepted parts *)
+Theorem C14_split_chain_then_concat_wf :
+  forall (chain : list bytes) (max : N) (parts : list bytes) (b : bytes),
+  wf_parts chain = true -> splitcat max chain = Ok (parts, b) ->
+  wf_parts parts = true /\ wf_archive b = true /\
+  exists xs xs' : list read_entry, strict_parts chain = SOk xs /\ strict_decode b = Ok xs' /\ Forall2 entry_same xs xs'.
+Proof. exact splitcat_wf_chain. Qed.
+Check C14_split_chain_then_concat_wf :
+  forall (chain : list bytes) (max : N) (parts : list bytes) (b : bytes),
+  wf_parts chain = true -> splitcat max chain = Ok (parts, b) ->
+  wf_parts parts = true /\ wf_archive b = true /\
+  exists xs xs' : list read_entry, strict_parts chain = SOk xs /\ strict_decode b = Ok xs' /\ Forall2 entry_same xs xs'.
+Print Assumptions C14_split_chain_then_concat_wf.
 
 Theorem C14_concat_premises_satisfiable :
   strict_parts [ex_a] = SOk (map normalize_entry [RNormal ex_plain; RNormal ex_enc; RSolid ex_solid]).
